@@ -273,7 +273,7 @@ func (cl *Client) ParseConnect(lid string, pk packets.Packet) {
 func (cl *Client) refreshDeadline(keepalive uint16) {
 	var expiry time.Time // nil time can be used to disable deadline if keepalive = 0
 	if keepalive > 0 {
-		expiry = time.Now().Add(time.Duration(keepalive+(keepalive/2)) * time.Second) // [MQTT-3.1.2-22]
+		expiry = time.Now().Add(time.Duration(keepalive) * time.Second * 3 / 2) // [MQTT-3.1.2-22]
 	}
 
 	if cl.Net.Conn != nil {
